@@ -34,7 +34,7 @@ class C28:
     def __init__(self, tier):
         self.tier = tier
         if tier == 'thorough':
-            self.examples = 5000
+            self.examples = 30000
             self.workers = 16
 
     def make_executor(self):
@@ -250,7 +250,7 @@ class C30:
     def __init__(self, tier):
         self.tier = tier
         if tier == 'thorough':
-            self.examples = 300000
+            self.examples = 60000
             self.workers = 16
 
     def make_executor(self):
@@ -363,14 +363,14 @@ class C31:
                    'delays 1-200 ms; a delay of 0 is not generated (the timer documents an empty time value as "ignore")',
                    'two events with the same due time may fire in either order']
     rule = ('Hypothesis draws up to 12 events (delay 1-200 ms, repeat flag, a script of callback results) and a script of steps: schedule event i, advance the clock by 0-250 ms '
-            '(biased to land exactly on, just before and just after due times), clear. A model keeps the pending set: after every advance exactly the events whose due time has been '
+            '(biased to land exactly on, just before and just after due times), clear, and clear from a second thread while the callback of the next due event is running. A model keeps the pending set: after every advance exactly the events whose due time has been '
             'reached must have fired, in due-time order; none may fire earlier; a repeating event whose callback returned true is due again one interval after the instant it ran, '
             'one that returned false is gone; after clear nothing pending may fire. Non-trivial: >= 2 overlapping repeating events and a clear.')
 
     def __init__(self, tier):
         self.tier = tier
         if tier == 'thorough':
-            self.examples = 20000
+            self.examples = 150000
             self.workers = 16
 
     def make_executor(self):
@@ -380,7 +380,7 @@ class C31:
         evt = st.tuples(st.one_of(st.integers(1, 200), st.sampled_from([1, 2, 10, 50, 100, 200])), st.sampled_from([True, True, False]), st.sampled_from(['', '0', '1', '11', '110', '1111', '111111', '101', '1110']))
         step = st.one_of(st.tuples(st.just('s'), st.integers(0, 11)), st.tuples(st.just('s'), st.integers(0, 11)),
                          st.tuples(st.just('a'), st.one_of(st.integers(0, 250), st.sampled_from(['due', 'due-1', 'due+1']))), st.tuples(st.just('a'), st.sampled_from(['due', 'due-1', 'due+1'])),
-                         st.tuples(st.just('c'),))
+                         st.tuples(st.just('c'),), st.tuples(st.just('G'),))
         return st.fixed_dictionaries({'events': st.lists(evt, min_size=12, max_size=12), 'steps': st.lists(step, min_size=1, max_size=30)})
 
     def run(self, case, ex):
@@ -391,7 +391,7 @@ class C31:
         toks = []
         expect = []                 # per step: list of sets fired in order groups
         model_fired = []            # (event, time, step)
-        nclear = nrepeat_overlap = 0
+        nclear = nrepeat_overlap = nconc = 0
         stepno = 0
         for stp in case['steps']:
             stepno += 1
@@ -424,6 +424,19 @@ class C31:
                         pending.append([now + p[4], order, p[2], p[3], p[4]])
                 if sum(1 for p in pending if p[3]) >= 2:
                     nrepeat_overlap += 1
+            elif stp[0] == 'G' and pending and sum(1 for p in pending if p[0] == min(q[0] for q in pending)) == 1:
+                # clear() from a second thread while the callback of the next due event is running (the callback is held by the harness until clear() has been
+                # called): the event runs, and whatever it would re-arm is cleared with everything else
+                p = min(pending, key=lambda q: q[0])
+                d = max(0, p[0] - now)
+                now += d
+                toks.append('G%d,%d' % (p[2], d))
+                if results[p[2]]:
+                    results[p[2]].pop(0)
+                model_fired.append((p[2], now, stepno, p[0]))
+                pending = []
+                nclear += 1
+                nconc += 1
             else:
                 toks.append('c')
                 pending = []
@@ -456,6 +469,7 @@ class C31:
             fail('callbacks ran that the model does not allow (before their due time, after clear, or after returning false): %s' % (extra[:10],))
         cls = []
         if nclear: cls.append('clear')
+        if nconc: cls.append('clear_during_callback')
         if nrepeat_overlap: cls.append('overlapping_repeats')
         return {'nontrivial': bool(nclear and nrepeat_overlap), 'classes': cls, 'key': case, 'sample': {'steps': toks, 'fired': got[:20]}}
 
